@@ -7,3 +7,5 @@ pub mod scratch;
 pub mod c06;
 pub mod c03;
 pub mod c04;
+pub mod c18;
+pub mod c12;
